@@ -474,6 +474,14 @@ func structTypeFor(typ jsonapi.Type) reflect.Type {
 	// encoder): it is no field of the resource and nothing may read or write it
 	decoy := func(name string, ft reflect.Type) {
 		if (len(name)+n)%4 == 2 {
+			if (len(name)+n)%8 == 6 {
+				// ... or of another Go type (e.g. an amount in cents next to its decimal text)
+				if ft.Kind() == reflect.Int64 {
+					ft = reflect.TypeOf("")
+				} else {
+					ft = reflect.TypeOf(int64(0))
+				}
+			}
 			fields = append(fields, reflect.StructField{
 				Name: fmt.Sprintf("D%d", n), Type: ft,
 				Tag: reflect.StructTag(fmt.Sprintf(`json:"%s"`, name)),
@@ -661,6 +669,8 @@ func newWrappedLiteral(typ jsonapi.Type, id string, vals map[string]any) *jsonap
 				sv.Field(i).Set(reflect.ValueOf([]string{"decoy"}))
 			case []byte:
 				sv.Field(i).Set(reflect.ValueOf([]byte("decoy")))
+			case int64:
+				sv.Field(i).SetInt(7)
 			}
 			continue
 		}
